@@ -239,4 +239,47 @@ example : checkHost mRoundRobin [[104, 49] ++ placeholder, [104, 50]] [117] ([10
 example : checkHost mRoundRobin [[104, 49] ++ placeholder, [104, 50]] [] [104, 50] = false := by decide
 example : checkHost mUnsigned [[104, 50]] [117] [104, 50, 0] = false := by decide
 
+/-! ### Further resource names and alternate names are inert -/
+
+/-- a CHANNEL_CREATE body: counts, port, protocol, then the names (each with its length) -/
+def channelBody (nres nalt : UInt8) (port : Nat) (first : Bytes) (rest : Bytes) : Bytes :=
+  [nres, nalt] ++ le16 port ++ le16 3 ++ le16 first.length ++ first ++ rest
+
+theorem u8_cons (b : UInt8) (t : Bytes) : Body.u8 (b :: t) = (b.toNat, t) := by
+  simp [Body.u8, Body.fixed]
+
+theorem u16_le16 (n : Nat) (h : n < 65536) (t : Bytes) : Body.u16 (le16 n ++ t) = (n, t) := by
+  have l : (le16 n).length = 2 := by simp [le16]
+  have hle : 2 ≤ (le16 n ++ t).length := by simp [l]
+  have ht : (le16 n ++ t).take 2 = le16 n := by
+    rw [List.take_append_of_le_length (by omega)]; exact List.take_of_length_le (by omega)
+  have hd : (le16 n ++ t).drop 2 = t := by
+    rw [← l]; exact List.drop_left
+  have r := rd16_le16 n h []
+  simp only [List.append_nil] at r
+  simp only [Body.u16, Body.fixed, hle, if_true, ht, hd, r]
+
+theorem blob_exact (first t : Bytes) :
+    Body.blobAllOrNothing first.length (first ++ t) = (first, t) := by
+  simp [Body.blobAllOrNothing]
+
+/-- **Only the first resource name counts.** Whatever further resource names and alternate names a
+    CHANNEL_CREATE packet carries after its first name, and whatever the two count octets say, the
+    address checked against policy and dialled is the one made of the first name and the port. -/
+theorem alternates_inert (nres nalt nres' nalt' : UInt8) (port : Nat) (first rest rest' : Bytes)
+    (hp : port < 65536) (hl : first.length < 65536) :
+    Body.channelHost (channelBody nres nalt port first rest) =
+    Body.channelHost (channelBody nres' nalt' port first rest') := by
+  have key : ∀ (a b : UInt8) (t : Bytes),
+      Body.channelRequest (channelBody a b port first t) = (Utf16.decodeOrEmpty first, port) := by
+    intro a b t
+    simp only [Body.channelRequest, channelBody, List.cons_append, List.nil_append, List.append_assoc,
+      u8_cons, u16_le16 _ hp, u16_le16 3 (by decide), u16_le16 _ hl, blob_exact]
+  simp only [Body.channelHost, key]
+
+/-- non-vacuity: two packets that differ in everything after the first name -/
+example : Body.channelHost (channelBody 1 0 3389 [104, 0, 0, 0] []) =
+    Body.channelHost (channelBody 2 3 3389 [104, 0, 0, 0] [2, 0, 120, 0, 9, 9]) :=
+  alternates_inert 1 0 2 3 3389 [104, 0, 0, 0] [] [2, 0, 120, 0, 9, 9] (by decide) (by decide)
+
 end Rdpgw.C03
